@@ -574,4 +574,40 @@ func ruleFreshID(c *Ctx) {
 	if n == 0 {
 		c.S.Undecided("R-C10-fresh-id", "sites", "-", "no assignment of storeKey.id found")
 	}
+	// the counter itself only ever grows: every store to it outside the loader and outside the construction of a new
+	// database stores (its own value + a positive constant). A counter that is set back (by a flush, say) hands out the
+	// ids of objects that connections have already watched.
+	k := 0
+	for _, fn := range c.SrcFuncs() {
+		if loaderExempt(fn) {
+			continue
+		}
+		for _, in := range instrsOf(fn) {
+			st, ok := isStoreTo(in, fCtr)
+			if !ok {
+				continue
+			}
+			fa := st.Addr.(*ssa.FieldAddr)
+			if isFreshDeep(fa.X, 0) {
+				continue // a database object under construction
+			}
+			k++
+			key := fmt.Sprintf("%s:counter#%d", fnName(fn), k)
+			grows := false
+			if bo, ok := st.Val.(*ssa.BinOp); ok && bo.Op == token.ADD {
+				if inc, isC := constInt(bo.Y); isC && inc >= 1 {
+					if u, ok := bo.X.(*ssa.UnOp); ok {
+						if fa2, ok := u.X.(*ssa.FieldAddr); ok && fieldOf(fa2) == fCtr && sameBase(fa2.X, fa.X) {
+							grows = true
+						}
+					}
+				}
+			}
+			if grows {
+				c.S.OK("R-C10-fresh-id", key, c.Pos(st.Pos()), "the counter is incremented")
+			} else {
+				c.S.Bad("R-C10-fresh-id", key, c.Pos(st.Pos()), fmt.Sprintf("%s assigns the object counter a value that is not (counter + a positive constant): the counter can go back, and a key created afterwards gets the version id a connection recorded with WATCH before — its EXEC runs although the key was replaced", fnName(fn)))
+			}
+		}
+	}
 }
